@@ -57,9 +57,14 @@ DOCS = [
     "<div>\nhtml block\n</div>\n\n[a]: http://three\n",                       # 19 html block first, ends with a definition
     "[text](http://one \"t\") is an inline link to the target that document 6 defines as [a]\n",    # 20 same (dest, title), no definition here
     "[x](http://two) inline, and ![img](http://one \"t\")\n\n[b]: http://one \"t\"\n\nuse [b]\n",   # 21 same targets under another label
+    # the same long sentence reached at different columns / after different leads (anything remembered per sentence or per word)
+    "Yes. The quick brown fox jumps over the lazy dog while the cat watches from the window sill and the birds sing.\n",          # 22
+    "Yes, that is certainly the case here. The quick brown fox jumps over the lazy dog while the cat watches from the window sill and the birds sing.\n",   # 23
+    "- The quick brown fox jumps over the lazy dog while the cat watches from the window sill and the birds sing.\n",           # 24
 ]
 OPTS = [dict(width=88, semantic=False, cleanups=False), dict(width=20, semantic=True, cleanups=True, smartquotes=True, ellipses=True),
-        dict(width=10, semantic=False, cleanups=False, list_spacing="loose"), dict(width=40, plaintext=True)]
+        dict(width=10, semantic=False, cleanups=False, list_spacing="loose"), dict(width=40, plaintext=True),
+        dict(width=60, semantic=True, cleanups=False)]   # (appended later: a width at which the starting column of a sentence matters)
 ACTIONS = [(d, o) for d in range(len(DOCS)) for o in range(len(OPTS))]
 
 
